@@ -506,6 +506,9 @@ func lifeSequences(c *hx.Ctx) [][]lifeOp {
 		add(F + " wait S")
 		add(F + " " + F + " S")
 		add("S stop " + F + " S")
+		// a failed Start after an established session has ended, then Stop (must return at once), then Start
+		add("S stop " + F + " stop S")
+		add("S lose " + F + " stop wait S")
 		add("S lose " + F + " S wait stop")
 		add("S wait stopstart(" + f + ") S")
 	}
@@ -661,7 +664,7 @@ func driveLife(c *hx.Ctx) error {
 		"without handler and the stub refuses - and then either KEEPS the connection open for the rest of the run or drops it 50 ms later, " +
 		"or drops once it has the Configure response. Sequences: every " +
 		"sequence of Start(healthy)/Stop/Wait of length <= 4 and with connection loss of length <= 3; for every fault f: f alone, f then " +
-		"healthy restart(s), f after Stop / after a loss, f in an immediate restart; Stop-then-immediate-Start repeated (the outcome depends on the " +
+		"healthy restart(s), f after Stop / after a loss (also followed by Stop and a healthy Start), f in an immediate restart; Stop-then-immediate-Start repeated (the outcome depends on the " +
 		"lock race; both schedules are in the model's prediction set); a Start failing after its client exists (refused, dropped in / after " +
 		"registration, configuration error) followed AT ONCE by a healthy Start, alone, after Stop, and followed by Stop and Start, repeated: " +
 		"the failed attempt's late close notification must not close the new session; thorough: 150 seeded sequences of length 5-8 over all operations. Observed per " +
